@@ -56,7 +56,42 @@ def g_numpart(rng, key, vars_ok, sub_ok):
     return out
 
 
+def g_numfactor(rng, sub_ok):
+    """a bound whose variable factors share a divisor g after the filter's own attribute is subtracted:
+    the own variable g+1 (or 1-g) times, other variables a multiple of g times, a constant that is usually no
+    multiple of g, positive or negative (the simplifier divides by common factors: rounding must not change anything)"""
+    key = rng.choice(["id", "cport", "sport", "cbytes", "sbytes"])
+    g = rng.choice([2, 2, 3, 4])
+    own_sub = ""
+    parts = []
+    k = rng.choice([g + 1, g + 1, 2 * g + 1, 1 - g] if g > 2 else [3, 3, 5, -1])
+    parts += [("+" if k > 0 else "-") + "@" + key + "@"] * abs(k)
+    others = [x for x in NUMVARS if x != key]
+    for vname in rng.sample(others, rng.choice([1, 1, 2])):
+        sub = (rng.choice(SUBS) + ":") if (sub_ok and rng.random() < 0.4) else ""
+        m = g * rng.choice([1, 1, 2])
+        parts += [rng.choice(["+", "-"]) + "@" + sub + vname + "@"] * m
+    if rng.random() < 0.9:
+        parts.append(rng.choice(["+", "-"]) + str(rng.choice([1, 3, 5, 7, 2, 9, 10, 0])))
+    rng.shuffle(parts)
+    b = "".join(parts)
+    if b.startswith("+"):
+        b = b[1:]
+    r = rng.random()
+    if r < 0.3:
+        v = b + ":"
+    elif r < 0.6:
+        v = ":" + b
+    elif r < 0.8:
+        v = b
+    else:
+        v = b + ":" + b.replace("-1", "-2") if False else b + ":" + str(rng.choice(NUMS))
+    return key + ":" + v
+
+
 def g_num(rng, vars_ok, sub_ok):
+    if vars_ok and rng.random() < 0.25:
+        return g_numfactor(rng, sub_ok)
     key = rng.choice(NUMKEYS)
     items = []
     for _ in range(1 if rng.random() < 0.7 else rng.randrange(2, 4)):
